@@ -20,12 +20,13 @@ Hazards (each behind its own flag; at most one per case):
   merge_loop_between  inner selector that depends on a loop variable of a loop between parent and child  (merge)
   merge_name_clash  inner associate name that is also used as a host variable in the parent block    (merge)
   merge_expr_selector  expression selector in a nested block                                        (merge)
+  merge_all_moved   nested block all of whose associations are independent of the parent block       (merge)
 """
 import re
 from vlib.fgenlab import ProgGen, Var, Case
 
 HAZARDS = ('section_lb', 'partial_range', 'modified_operand', 'merge_dep_sub', 'merge_loop_between',
-           'merge_name_clash', 'merge_expr_selector')
+           'merge_name_clash', 'merge_expr_selector', 'merge_all_moved')
 
 ASSOC_FLAGS = dict(merge_safe=False, shadowing=True, host_names=True, expr_selectors=True, assoc_density=0.35,
                    **{h: False for h in HAZARDS})
@@ -139,6 +140,19 @@ class AssocGen(ProgGen):
             nm = self._fresh('z' if rank == 0 else 'y')
             return nm, None
 
+        if f['merge_safe'] and self.parent_names and not f['merge_all_moved']:
+            # anchor: one association whose selector is a name of the parent block is never moved by the merge, so
+            # the block cannot end up as 'ASSOCIATE ()' (known defect, exercised in the slice 'merge_all_moved')
+            pv = [v for v in env.vars if v.name in self.parent_names[-1] and (v.kind or '').startswith('alias:')]
+            if pv:
+                tv = rng.choice(pv)
+                nm = self._fresh('za' if tv.rank == 0 else 'ya')
+                items.append((nm, tv.name))
+                newvars.append(Var(nm, tv.typ, tv.rank, tv.dims, intent=tv.intent, bound=tv.bound, kind=tv.kind))
+                taken.add(nm)
+                self.features.add('selector_is_outer_associate_name')
+        elif f['merge_all_moved'] and self.parent_names:
+            self.features.add('hazard_merge_all_moved')
         for _ in range(nsel):
             kind = rng.choice(['scalar', 'scalar', 'comp', 'elem', 'array', 'array', 'section', 'expr', 'idx'])
             sel, var = None, None
